@@ -55,6 +55,40 @@ Theorem C02_progress_unconditional_refuted : exists s, reach s /\ next_recv s < 
 Proof. exact progress_unconditional_refuted. Qed.
 Print Assumptions C02_progress_unconditional_refuted.
 
+(* windows computed as the code does (wst: congestion window, the sender's view of the receiver's window, the
+   receiver's free space, window values carried by every datagram of the reverse direction).  Every reachable
+   windowed state projects to a reachable state of the basic system whose send window is
+   min(cwnd - |sendBuf|, remoteWindowSize), so all theorems above apply to it. *)
+Theorem C02_windowed_refines : forall s, wreach s -> reach (base s) /\ win (base s) = swin (base s) (cwnd s) (rwnd s).
+Proof. exact wreach_base. Qed.
+Print Assumptions C02_windowed_refines.
+
+(* the window-reopening ack: in every reachable state the receiver can emit an ack carrying its current window
+   and, when the sender processes it - WHATEVER its ack number, in particular an unchanged one (heartbeat) - the
+   sender's view becomes the receiver's free space; with nothing in flight and free space the send window is > 0 *)
+Theorem C02_window_reopen_enabled : forall s, wreach s ->
+  exists s1 s2,
+    wstep s (WSendAck (next_recv (base s))) s1 /\ wstep s1 (WRecvAck (next_recv (base s)) (rspace s)) s2 /\
+    rwnd s2 = rspace s /\ cwnd s2 = cwnd s /\ rspace s2 = rspace s /\
+    assigned (base s2) = assigned (base s) /\ next_recv (base s2) = next_recv (base s) /\ sent_hi (base s2) = sent_hi (base s) /\
+    (next_recv (base s) = sent_hi (base s) -> win (base s2) = Nat.min (cwnd s) (rspace s)) /\
+    (next_recv (base s) = sent_hi (base s) -> 0 < rspace s -> 0 < win (base s2)).
+Proof. exact window_reopen_enabled. Qed.
+Print Assumptions C02_window_reopen_enabled.
+
+(* progress WITHOUT the window hypothesis: undelivered data and free space at the receiver => at most five steps
+   (ack, its delivery, transmission of the awaited segment, its delivery, move) advance the receiver.  Fairness
+   assumption on acks, explicit: the ack step taken here is DELIVERED - i.e. of the acks the receiver keeps
+   emitting (on data, and one per heartbeat interval when idle) one eventually reaches the sender.  Still not
+   proved: that the heartbeat timer fires (the driver's exact-window-closure family watches it). *)
+Theorem C02_progress_by_ack : forall s, wreach s -> next_recv (base s) < length (assigned (base s)) -> 0 < rspace s ->
+  exists ls s', wrun s ls s' /\ length ls <= 5 /\ next_recv (base s') = S (next_recv (base s)).
+Proof. exact progress_by_ack. Qed.
+Print Assumptions C02_progress_by_ack.
+
+Example C02_window_nonvacuous : exists s, wreach s /\ next_recv (base s) < length (assigned (base s)) /\ rwnd s = 0 /\ win (base s) = 0 /\ 0 < rspace s.
+Proof. exact ex_wreach. Qed.
+
 (* the receiver never goes backwards (rank n - next_recv never increases) *)
 Theorem C02_rank_monotone : forall s l s', lstep s l s' -> next_recv s <= next_recv s'.
 Proof. exact next_recv_mono. Qed.
